@@ -49,19 +49,19 @@ typedef struct {
 
 static const cfg_t cfgs[] = {
     /* quick */
-    { "create race, same key: U1|X set k0, primary(owner) gets", 1, 4,
-      T_PRIMARY, "", 0, 3, { { A_U1, 1, "S0" }, { A_X, 1, "S0" }, { A_OWNER, 2, "G0G0" } } },
-    { "create race, colliding keys (N=1): U1 set k0 | X set k1, owner gets", 1, 1,
-      T_PRIMARY, "", 1, 3, { { A_U1, 1, "S0" }, { A_X, 1, "S1" }, { A_OWNER, 2, "G0G1" } } },
     { "append race on one chain (N=1, table exists): U1 set k1 | X set k2, owner gets", 1, 1,
       T_PRIMARY, "0", 0, 3, { { A_U1, 1, "S1" }, { A_X, 1, "S2" }, { A_OWNER, 3, "G2G1G0" } } },
-    { "same new key, table exists (N=2): U1|X set k0, owner gets", 1, 2,
+    { "create race, colliding keys (N=1): U1 set k0 | X set k1, owner gets", 1, 1,
+      T_PRIMARY, "", 1, 3, { { A_U1, 1, "S0" }, { A_X, 1, "S1" }, { A_OWNER, 2, "G0G1" } } },
+    { "create race, same key: U1|X set k0, primary(owner) gets", 1, 4,
+      T_PRIMARY, "", 0, 3, { { A_U1, 1, "S0" }, { A_X, 1, "S0" }, { A_OWNER, 2, "G0G0" } } },
+    { "same new key, table exists (N=2): U1|X set k0, owner gets", 0, 2,
       T_PRIMARY, "1", 1, 3, { { A_U1, 2, "S0G0" }, { A_X, 1, "S0" }, { A_OWNER, 2, "G0G0" } } },
     { "owner ULT key_set vs U1 thread_set, create race (N=1)", 1, 1,
       T_ULT0, "", 0, 2, { { A_OWNER, 2, "S0G1" }, { A_U1, 2, "S1G0" } } },
     { "parked tasklet target: U1 set k0,k1 | primary set k1, get k0 (N=1)", 1, 1,
       T_PARKED_TASK, "", 0, 2, { { A_U1, 2, "S0S1" }, { A_P, 2, "S1G0" } } },
-    { "NULL vs value on an existing key: U1 NULL k0 | X set k0, owner ULT gets (N=4)", 1, 4,
+    { "NULL vs value on an existing key: U1 NULL k0 | X set k0, owner ULT gets (N=4)", 0, 4,
       T_ULT0, "0", 1, 3, { { A_U1, 1, "N0" }, { A_X, 1, "S0" }, { A_OWNER, 2, "G0G0" } } },
     { "create race U1 | X on a parked ULT, colliding (N=2: k0,k2), primary gets", 1, 2,
       T_PARKED_ULT, "", 0, 3, { { A_U1, 1, "S0" }, { A_X, 1, "S2" }, { A_P, 2, "G2G0" } } },
@@ -99,8 +99,8 @@ static ABT_thread target;
 static ABT_key key_h[NKEYS];
 static int key_dtor[NKEYS] = { 1, 0, 1 };
 static int ever_set[NKEYS];
-static char owner_reads[16];
-static int n_owner_reads;
+static char reads[3][8]; /* per program: origin of each value it read */
+static int nreads[3];
 
 static char origin(void *v)
 {
@@ -122,6 +122,7 @@ static void *token(int actor, int serial, int key)
 static void run_prog(const prog_t *p)
 {
     int owner = (p->actor == A_OWNER);
+    int pi = (int)(p - C->p);
     for (int i = 0; i < p->n; i++) {
         char op = p->ops[2 * i];
         int k = p->ops[2 * i + 1] - '0';
@@ -141,8 +142,7 @@ static void run_prog(const prog_t *p)
                 OK(ABT_self_get_specific(key_h[k], &g));
             h->val = g;
             h->ret = abtmc_step();
-            if (owner || p->actor == A_P)
-                owner_reads[n_owner_reads++] = origin(g);
+            reads[pi][nreads[pi]++] = origin(g);
         } else {
             void *v = (op == 'S') ? token(p->actor, i + 1, k) : NULL;
             h->is_write = 1;
@@ -408,9 +408,9 @@ static void scenario(int cfg)
     walk_table(internal_keys);
     abtmc_check(c16_ndlog == 0, "destructor_early",
                 "a destructor ran before any unit was freed");
-    owner_reads[n_owner_reads] = 0;
-    abtmc_observe("reads=%s final=%c%c%c", owner_reads, origin(final_val[0]),
-                  origin(final_val[1]), origin(final_val[2]));
+    abtmc_observe("reads=%s/%s/%s final=%c%c%c", reads[0], reads[1], reads[2],
+                  origin(final_val[0]), origin(final_val[1]),
+                  origin(final_val[2]));
 
     int has_dtor[NKEYS];
     for (int k = 0; k < NKEYS; k++)
